@@ -172,8 +172,14 @@ def check_dependencies(idx: Index, rep: Report) -> None:
         r.fail(g.fq, Finding("C25.R3", g.fq, "results-without-dependency", f"result lattices (read by the transfer function) are not obtained through get_lattice_element_for(point, r) for every result (element `{shape}` over {[a_.iters for a_ in dsc.adds]})", g.loc))
     # the impl receives exactly these lattices and the transfer function runs on every path that gathered them
     calls = [c for c in calls_in(g.node) if unparse(c.func) == "self.visit_operation_impl"]
-    if len(calls) == 1 and [unparse(a) for a in calls[0].args] == ["op", "operand_lattices", "result_lattices"]:
-        r.ok(g.fq + ":impl", f"{g.loc} visit_operation_impl(op, operand_lattices, result_lattices)")
+    impl_ok = False
+    if len(calls) == 1 and len(calls[0].args) == 3 and unparse(calls[0].args[0]) == opn_:
+        d1 = _describe(g.node, cf, calls[0].args[1], cf.node_of(calls[0]))
+        if d1.unknown:
+            raise AnalysisError(f"{g.fq}: construction of the operand lattices not understood: {d1.unknown[:2]}")
+        impl_ok = not d1.bases and len(d1.adds) == 1 and len(d1.adds[0].iters) == 1 and d1.adds[0].iters[0][1] == f"{opn_}.operands" and calls[0] is ic
+    if impl_ok:
+        r.ok(g.fq + ":impl", f"{g.loc} visit_operation_impl(op, <lattices of op.operands>, <lattices of op.results>)")
     else:
         r.fail(g.fq + ":impl", Finding("C25.R3", g.fq, "impl-arguments", "visit_operation_impl is not called with (op, operand_lattices, result_lattices)", g.loc))
     # the transfer function reads only result lattices' state
